@@ -10,7 +10,7 @@ knows.  Two oracles:
     library filtered by this module's own implementation of the documented semantics
     (after-inclusive, before-exclusive, extension case-insensitive, fnmatch on the full path),
     evaluated on exact integer timestamps.  Where the documentation promises nothing (timestamp
-    absent from the JSON, pattern matching only case-insensitively, ``.tar.gz``-style extensions)
+    absent from the JSON, pattern matching only case-insensitively, extension entries spelled without their dot)
     the reference is three-valued and either answer is accepted.
 (b) fault enumeration: for every listing run, for EVERY request index k of the fault-free request
     sequence and every fault kind, a fresh client is run against a transport that fails exactly at
@@ -242,12 +242,13 @@ def match(flt, n, parent_path) -> int:
             return NO
     exts = flt.get("extensions") or []
     if exts:
+        # An extension is written with its dot (".pdf", ".tar.gz"): a file matches iff its name ends with it, letter case
+        # ignored — however many dots the extension has and even when the name is nothing else (".gitignore").  Entries
+        # without a leading dot ("pdf", "") are not a documented spelling: either answer is accepted for names ending so.
         low = n.name.lower()
-        ends = any(low.endswith(e.lower()) for e in exts)
-        last = any(("." + low.rsplit(".", 1)[1]) == e.lower() for e in exts) if "." in low else False
-        if not ends and not last:
+        if not any(low.endswith(e.lower()) for e in exts):
             return NO
-        if ends != last:
+        if not any(len(e) > 1 and e.startswith(".") and low.endswith(e.lower()) for e in exts):
             v = min(v, MAYBE)
     pats = flt.get("path_patterns") or []
     if pats:
@@ -382,8 +383,13 @@ def _pick_bound(rng, lib, drive, field, risky: bool):
     return b, tag
 
 
+def _suffixes(name):
+    """Every dotted suffix of a file name: 'a.tar.gz' -> '.tar.gz', '.gz'; '.gitignore' -> '.gitignore'."""
+    return [name[i:] for i, c in enumerate(name) if c == "." and i < len(name) - 1 and " " not in name[i:]]
+
+
 def _exts(rng, files):
-    present = sorted({("." + n.name.rsplit(".", 1)[1]) for n, _ in files if "." in n.name and " " not in n.name.rsplit(".", 1)[1]})
+    present = sorted({sfx for n, _ in files for sfx in _suffixes(n.name)[-2:]})
     out = []
     for _ in range(rng.randint(1, 3)):
         e = rng.choice(present) if present and rng.random() < 0.85 else rng.choice([".zip", ".PDF", ".docx"])
@@ -575,6 +581,54 @@ def _plan_overlap_runs(rng, lib):
     return runs
 
 
+def _plan_ext_runs(rng, lib):
+    """Clean: extension filters in every shape the names of the library offer — compound ('.tar.gz'), the last component only
+    ('.gz'), a whole dot-file name ('.gitignore'), each in several letter cases, mixed with absent ones, and (either answer
+    accepted) spelled without the dot — through all three filtered entry points, with and without folder_paths."""
+    runs = []
+    far = {"us": 946_684_800_000_000, "tzmin": 0}
+    recase = lambda e: rng.choice((e, e.lower(), e.upper(), e.swapcase(), e.title()))
+    for d in lib.drives[:2]:
+        files = list(lib.walk_files(d.root, ""))
+        comp = sorted({sfx for n, _ in files for sfx in _suffixes(n.name) if sfx.count(".") >= 2 and not n.name.startswith(sfx)})
+        whole = sorted({n.name for n, _ in files if n.name.startswith(".") and len(n.name) > 1 and " " not in n.name})
+        last = sorted({_suffixes(n.name)[-1] for n, _ in files if _suffixes(n.name)})
+        shapes = []
+        for e in comp[:4]:
+            shapes.append((["ext:compound"], [recase(e)]))
+        for e in whole[:3]:
+            shapes.append((["ext:whole-name"], [recase(e)]))
+        if comp and last:
+            shapes.append((["ext:compound", "ext:mixed"], [rng.choice(last), recase(rng.choice(comp)), ".zip"]))
+        if whole and last:
+            shapes.append((["ext:whole-name", "ext:mixed"], [".nope", recase(rng.choice(whole)), recase(rng.choice(last))]))
+        if last:
+            shapes.append((["ext:last-component"], [recase(rng.choice(last)) for _ in range(2)]))
+            e = rng.choice(comp or last)
+            shapes.append((["ext:undotted"], [recase(e[1:])]))
+        for etags, exts in shapes:
+            api = rng.choice(["filtered", "filtered", "modified_since", "created_since"])
+            tags = ["extensions"] + etags
+            fps = None
+            if rng.random() < 0.3 and d.folders():
+                fps = _folder_paths(rng, d, tags)
+                tags.append("folder_paths")
+            if api == "filtered":
+                flt = {"extensions": exts}
+                if fps:
+                    flt["folder_paths"] = fps
+                rs = {"api": api, "filter": flt, "tags": tags, "feature": "clean"}
+            else:
+                rs = {"api": api, "since": dict(far), "extensions": exts, "tags": tags + ["bound:far"], "feature": "clean"}
+                if fps:
+                    rs["folder_paths"] = fps
+            if d is not lib.default_drive:
+                rs["drive"] = d.id
+                tags.append("named-drive")
+            runs.append(rs)
+    return runs
+
+
 def _prefix_pairs(lib, d):
     """(A, B): sibling folders where B's name starts with A's name, both with files below."""
     has = lambda f: any(True for _ in lib.walk_files(f, ""))
@@ -669,11 +723,11 @@ def plan_cases(run) -> list[dict]:
     # (shape, page sizes, weight, enumerate faults?)
     if run.quick:
         mix = [("tiny", 16, True), ("small", 18, True), ("medium", 4, True), ("deep", 4, True), ("wide", 3, True), ("large", 4, False)]
-        n_frac, n_over, n_prefix, n_slash = 5, 4, 8, 3
+        n_frac, n_over, n_prefix, n_slash, n_ext = 5, 4, 8, 3, 8
     else:
         mix = [("tiny", 80, True), ("small", 110, True), ("medium", 45, True), ("deep", 40, True), ("wide", 30, True), ("large", 12, False),
                ("large", 2, True)]
-        n_frac, n_over, n_prefix, n_slash = 30, 20, 60, 15
+        n_frac, n_over, n_prefix, n_slash, n_ext = 30, 20, 60, 15, 60
     cid = 0
 
     def recipe(shape):
@@ -702,6 +756,11 @@ def plan_cases(run) -> list[dict]:
             continue
         made += 1
         cases.append({"cid": cid, "lib": rc, "runs": runs, "enumerate": False, "feature": "clean"})
+        cid += 1
+    for _ in range(n_ext):                                   # clean family: extension filters of every shape over names of every shape
+        rc = dict(recipe(rng.choice(["tiny", "small", "small", "medium", "deep", "wide"])), ext_shapes=True)
+        lib = G.Library(rc)
+        cases.append({"cid": cid, "lib": rc, "runs": _plan_ext_runs(random.Random(f"plan:{rc['seed']}"), lib), "enumerate": False, "feature": "clean"})
         cid += 1
     for feature, count, planner in (("fracbound", n_frac, _plan_frac_runs), ("overlap", n_over, _plan_overlap_runs), ("slashpath", n_slash, _plan_slash_runs)):
         made = tries = 0
@@ -818,6 +877,9 @@ class Judge:
             self.c["files_exactly_at_a_bound"] += hits
         self.c["reference_maybe_files"] += sum(1 for e in exp.values() if e[2] == MAYBE)
         self.c["reference_selected_files"] += sum(1 for e in exp.values() if e[2] == YES)
+        for t in ("ext:compound", "ext:whole-name"):
+            if t in rs["tags"]:
+                self.c["files_selected_by_" + t] += sum(1 for e in exp.values() if e[2] == YES)
         feature = rs["feature"]
         sig_tags = sorted(set(t for t in rs["tags"]))
         if "exc" in base:
@@ -973,7 +1035,7 @@ def main(run):
         "vlib/gen/graphsim.py answers like Microsoft Graph for the endpoints the client uses (token, site lookup, drives, children by id/path with @odata.nextLink, item by path)",
         "a fault fires once, at request index k of a fresh client; later requests are served normally",
         "folder_paths are addressed case-insensitively (as the simulator / Graph does); the expected parent path keeps the caller's spelling without outer slashes",
-        "files whose JSON lacks the filtered timestamp, patterns matching only case-insensitively and multi-dot extensions are 'either answer accepted'",
+        "files whose JSON lacks the filtered timestamp, patterns matching only case-insensitively and extension entries written without their dot are 'either answer accepted' (a dotted entry, however many dots, decides by the end of the name)",
         "list_files_in_folder / list_drives are judged on (id, name) only; an HTTPError body left unclosed by the client is counted, not judged",
     ]
     cases = plan_cases(run)
@@ -1024,6 +1086,10 @@ def main(run):
     run.require("prefix_sibling_folder_path_runs", judge.tag_runs["prefix-sibling"], run.n(30, 200))
     for order in ("prefix-first", "extension-first", "repeat", "below-extension", "nested", "case-variant"):
         run.require("prefix_sibling_runs:" + order, judge.tag_runs["prefix-sibling:" + order], run.n(3, 20))
+    for t in ("ext:compound", "ext:whole-name", "ext:last-component", "ext:undotted"):
+        run.require("extension_filter_runs:" + t, judge.tag_runs[t], run.n(8, 60))
+    for t in ("ext:compound", "ext:whole-name"):
+        run.require("files_selected_by_" + t, c["files_selected_by_" + t], run.n(10, 80))
     run.require("slashed_folder_path_runs", judge.tag_runs["slashed-folder-path"], run.n(3, 15))
     run.require("responses_opened", c["responses_opened"], 1000)
     # "non-2xx without exception" must be injected from every status class outside 2xx (1xx, 3xx, 4xx, 5xx), at every request kind
